@@ -16,4 +16,278 @@ theorem rc4Apply_involution (st : Rc4) (x : Bytes) : (rc4Apply st (rc4Apply st x
 
 theorem rc4_involution (key x : Bytes) : rc4 key (rc4 key x) = x := rc4Apply_involution _ x
 
+/-! ## digests have 16 bytes -/
+
+theorem le32_length (w : UInt32) : (le32 w).length = 4 := rfl
+
+theorem md5_length (m : Bytes) : (md5 m).length = 16 := by
+  unfold md5
+  simp [le32_length]
+
+theorem hmacMd5_length (k m : Bytes) : (hmacMd5 k m).length = 16 := by
+  unfold hmacMd5
+  exact md5_length _
+
+/-! ## envelope -/
+
+theorem body_append_tag (e t : Bytes) (ht : t.length = 16) : body (e ++ t) = e ∧ tag (e ++ t) = t := by
+  unfold body tag
+  have : (e ++ t).length - 16 = e.length := by simp [ht]
+  rw [this]
+  simp
+
+theorem check_encrypt (key e : Bytes) : check key (e ++ hmacMd5 key e) = true := by
+  obtain ⟨hb, ht⟩ := body_append_tag e (hmacMd5 key e) (hmacMd5_length key e)
+  unfold check
+  rw [hb, ht]
+  simp
+
+/-- `decrypt k (encrypt k x) = x` for every key the cipher accepts and every data -/
+theorem decrypt_encrypt (key data b : Bytes) (h : Kerberos.encrypt key data = .ok b) :
+    Kerberos.decrypt key b = .ok data := by
+  unfold Kerberos.encrypt at h
+  split at h
+  · rename_i hk
+    simp only [Except.ok.injEq] at h
+    subst h
+    unfold Kerberos.decrypt
+    simp only [check_encrypt, Bool.not_true, Bool.false_eq_true, if_false, hk, if_true]
+    rw [(body_append_tag _ _ (hmacMd5_length key _)).1, rc4_involution]
+  · cases h
+
+theorem encrypt_ok_iff (key data : Bytes) : (∃ b, Kerberos.encrypt key data = .ok b) ↔ (1 ≤ key.length ∧ key.length ≤ 256) := by
+  unfold Kerberos.encrypt rc4KeyOk
+  by_cases h : (1 ≤ key.length ∧ key.length ≤ 256)
+  · simp [h]
+  · have : (decide (1 ≤ key.length) && decide (key.length ≤ 256)) = false := by
+      simp only [Bool.and_eq_false_iff, decide_eq_false_iff_not]; omega
+    simp [this, h]
+
+/-- check-before-decrypt: whatever is accepted carries the HMAC of its body under the key, has at
+least 16 bytes, and the plaintext is the RC4 image of the body -/
+theorem decrypt_ok_implies_mac (key b x : Bytes) (h : Kerberos.decrypt key b = .ok x) :
+    tag b = hmacMd5 key (body b) ∧ 16 ≤ b.length ∧ x = rc4 key (body b) := by
+  unfold Kerberos.decrypt at h
+  split at h
+  · cases h
+  · rename_i hc
+    simp only [Bool.not_eq_true, Bool.not_eq_false'] at hc
+    have hc' : check key b = true := by simpa using hc
+    unfold check at hc'
+    have htag : tag b = hmacMd5 key (body b) := by simpa using hc'
+    have hlen : (tag b).length = 16 := by rw [htag]; exact hmacMd5_length _ _
+    have h16 : 16 ≤ b.length := by
+      unfold tag at hlen
+      simp only [List.length_drop] at hlen
+      omega
+    split at h
+    · simp only [Except.ok.injEq] at h
+      exact ⟨htag, h16, h.symm⟩
+    · cases h
+
+/-- anything whose tag is not the HMAC of its body is rejected before the cipher runs -/
+theorem decrypt_rejects (key b : Bytes) (h : tag b ≠ hmacMd5 key (body b)) : Kerberos.decrypt key b = .error .value := by
+  unfold Kerberos.decrypt check
+  have : (tag b == hmacMd5 key (body b)) = false := by simpa using h
+  simp [this]
+
+/-- anything shorter than a tag is rejected -/
+theorem decrypt_short (key b : Bytes) (h : b.length < 16) : Kerberos.decrypt key b = .error .value := by
+  apply decrypt_rejects
+  intro he
+  have : (tag b).length = 16 := by rw [he]; exact hmacMd5_length _ _
+  unfold tag at this
+  simp only [List.length_drop] at this
+  omega
+
+/-! ## HMAC pads short keys with zeros: distinct keys can be equivalent -/
+
+theorem hmacMd5_key_zero (key m : Bytes) (h : key.length < 64) : hmacMd5 (key ++ [0]) m = hmacMd5 key m := by
+  unfold hmacMd5
+  have h1 : ¬ (key.length > 64) := by omega
+  have h2 : ¬ ((key ++ [0]).length > 64) := by simp; omega
+  simp only [h1, h2, if_false]
+  have : key ++ [0] ++ List.replicate (64 - (key ++ [0]).length) 0 = key ++ List.replicate (64 - key.length) 0 := by
+    simp only [List.length_append, List.length_cons, List.length_nil, List.append_assoc, List.cons_append, List.nil_append]
+    have : 64 - key.length = (64 - (key.length + (0 + 1))) + 1 := by omega
+    rw [this, List.replicate_succ]
+  rw [this]
+
+/-- a ciphertext made under `key` passes the check of the different key `key ++ [0]` -/
+theorem wrong_key_accepted (key data b : Bytes) (hk : 1 ≤ key.length) (h64 : key.length < 64)
+    (h : Kerberos.encrypt key data = .ok b) : ∃ x, Kerberos.decrypt (key ++ [0]) b = .ok x := by
+  unfold Kerberos.encrypt at h
+  split at h
+  · simp only [Except.ok.injEq] at h
+    subst h
+    have hc : check (key ++ [0]) (rc4 key data ++ hmacMd5 key (rc4 key data)) = true := by
+      have := check_encrypt (key ++ [0]) (rc4 key data)
+      rw [hmacMd5_key_zero key _ h64] at this
+      exact this
+    have hk2 : rc4KeyOk (key ++ [0]) = true := by
+      unfold rc4KeyOk; simp; omega
+    unfold Kerberos.decrypt
+    simp [hc, hk2]
+  · cases h
+
+/-! ## key derivation -/
+
+/-- reference: `n`-fold iteration written with `Nat.iterate`-style recursion from the other end -/
+def md5Pow : Nat → Bytes → Bytes
+  | 0, k => k
+  | n + 1, k => md5 (md5Pow n k)
+
+theorem md5Iter_succ (n : Nat) (k : Bytes) : md5Iter (n + 1) k = md5 (md5Iter n k) := by
+  induction n generalizing k with
+  | zero => rfl
+  | succ n ih => rw [md5Iter, ih]; rfl
+
+theorem md5Iter_eq_pow (n : Nat) (k : Bytes) : md5Iter n k = md5Pow n k := by
+  induction n with
+  | zero => rfl
+  | succ n ih => rw [md5Iter_succ, ih]; rfl
+
+theorem md5Iter_add (a b : Nat) (k : Bytes) : md5Iter (a + b) k = md5Iter b (md5Iter a k) := by
+  induction a generalizing k with
+  | zero => simp [md5Iter]
+  | succ a ih => rw [Nat.succ_add, md5Iter, ih]; rfl
+
+theorem deriveOld_def (base pidc : Nat) (pw : Bytes) (pid : Nat) (h : 0 < pidc) :
+    deriveOld base pidc pw pid = .ok (md5Pow (base + pid % pidc) pw) := by
+  unfold deriveOld
+  have : ¬ pidc = 0 := by omega
+  simp [this, md5Iter_eq_pow]
+
+theorem deriveNew_def (base pidc : Nat) (pw : Bytes) (pid : Nat) (h : pid < 18446744073709551616) :
+    deriveNew base pidc pw pid = .ok (md5Pow pidc (md5Pow base pw ++ u64le pid)) := by
+  unfold deriveNew wU64
+  simp [h, md5Iter_eq_pow, bind, Except.bind, pure, Except.pure]
+
+theorem derive_length_old (base pidc : Nat) (pw : Bytes) (pid : Nat) (k : Bytes) (hb : 0 < base)
+    (h : deriveOld base pidc pw pid = .ok k) : k.length = 16 := by
+  unfold deriveOld at h
+  split at h
+  · cases h
+  · simp only [Except.ok.injEq] at h
+    subst h
+    obtain ⟨n, hn⟩ : ∃ n, base + pid % pidc = n + 1 := ⟨base + pid % pidc - 1, by omega⟩
+    rw [hn, md5Iter_succ]
+    exact md5_length _
+
+/-! ## tickets -/
+
+theorem clientTicket_roundtrip (c : Cfg) (key : Bytes) (t : ClientTicket) (b : Bytes)
+    (h : ClientTicket.encrypt c key t = .ok b) : ClientTicket.decrypt c key b = .ok t := by
+  unfold ClientTicket.encrypt at h
+  obtain ⟨d, hd, he⟩ := bind_ok h
+  unfold clientPlain at hd
+  split at hd
+  · cases hd
+  · rename_i hks
+    have hks' : c.keySize = t.sessionKey.length := by
+      simpa using hks
+    obtain ⟨p, hp, hd⟩ := bind_ok hd
+    obtain ⟨bb, hbb, hd⟩ := bind_ok hd
+    simp only [pure, Except.pure, Except.ok.injEq] at hd
+    subst hd
+    have h1 := decrypt_encrypt key _ b he
+    have h2 : rd c.keySize (t.sessionKey ++ p ++ bb) = .ok (t.sessionKey, p ++ bb) := by
+      rw [hks', List.append_assoc]; exact rd_append _ _
+    have h3 := rPid_wPid c.pidSize hp bb
+    have h4 : rBuffer bb = .ok (t.internal, []) := by
+      have := rBuffer_wBuffer hbb []
+      simpa using this
+    simp only [ClientTicket.decrypt, h1, bind, Except.bind, h2, h3, h4, pure, Except.pure]
+
+theorem serverPlain_read (c : Cfg) (t : ServerTicket) (d : Bytes) (hd : serverPlain c t = .ok d) :
+    (do let (ts, r) ← rDateTime d
+        let (source, r) ← rPid c.pidSize r
+        let (sk, _) ← rd c.keySize r
+        pure (⟨ts, source, sk⟩ : ServerTicket)) = .ok t := by
+  unfold serverPlain at hd
+  obtain ⟨ts, hts, hd⟩ := bind_ok hd
+  obtain ⟨p, hp, hd⟩ := bind_ok hd
+  split at hd
+  · cases hd
+  · rename_i hks
+    have hks' : c.keySize = t.sessionKey.length := by
+      have : ¬ (t.sessionKey.length ≠ c.keySize) := hks
+      omega
+    simp only [pure, Except.pure, Except.ok.injEq] at hd
+    subst hd
+    have h1 := rDateTime_wDateTime hts (p ++ t.sessionKey)
+    have h2 := rPid_wPid c.pidSize hp t.sessionKey
+    have h3 : rd c.keySize t.sessionKey = .ok (t.sessionKey, []) := by
+      have := rd_append t.sessionKey []
+      rw [hks']; simpa using this
+    simp only [List.append_assoc, h1, bind, Except.bind, h2, h3, pure, Except.pure]
+
+theorem serverTicket_roundtrip (c : Cfg) (key ticketKey : Bytes) (t : ServerTicket) (b : Bytes)
+    (h : ServerTicket.encrypt c key ticketKey t = .ok b) : ServerTicket.decrypt c key b = .ok t := by
+  unfold ServerTicket.encrypt at h
+  obtain ⟨d, hd, h⟩ := bind_ok h
+  have hread := serverPlain_read c t d hd
+  by_cases hv : c.ticketVersion = 1
+  · simp only [hv, if_true] at h
+    obtain ⟨e, he, h⟩ := bind_ok h
+    obtain ⟨a, ha, h⟩ := bind_ok h
+    obtain ⟨bb, hbb, h⟩ := bind_ok h
+    simp only [pure, Except.pure, Except.ok.injEq] at h
+    subst h
+    have h1 := rBuffer_wBuffer ha bb
+    have h2 : rBuffer bb = .ok (e, []) := by
+      have := rBuffer_wBuffer hbb []
+      simpa using this
+    have h3 := decrypt_encrypt _ _ _ he
+    unfold ServerTicket.decrypt
+    simp only [hv, if_true, h1, bind, Except.bind, h2, pure, Except.pure, h3]
+    exact hread
+  · simp only [hv, if_false] at h
+    have h3 := decrypt_encrypt _ _ _ h
+    unfold ServerTicket.decrypt
+    simp only [hv, if_false, bind, Except.bind, pure, Except.pure, h3]
+    exact hread
+
+/-- the version-1 layout: `buffer(ticketKey) ‖ buffer(envelope under md5(key ‖ ticketKey))` -/
+theorem serverTicket_v1_layout (c : Cfg) (key ticketKey : Bytes) (t : ServerTicket) (b : Bytes)
+    (hv : c.ticketVersion = 1) (h : ServerTicket.encrypt c key ticketKey t = .ok b) :
+    ∃ d e, serverPlain c t = .ok d ∧ Kerberos.encrypt (md5 (key ++ ticketKey)) d = .ok e ∧
+      b = u32le ticketKey.length ++ ticketKey ++ (u32le e.length ++ e) := by
+  unfold ServerTicket.encrypt at h
+  obtain ⟨d, hd, h⟩ := bind_ok h
+  simp only [hv, if_true] at h
+  obtain ⟨e, he, h⟩ := bind_ok h
+  obtain ⟨a, ha, h⟩ := bind_ok h
+  obtain ⟨bb, hbb, h⟩ := bind_ok h
+  simp only [pure, Except.pure, Except.ok.injEq] at h
+  refine ⟨d, e, hd, he, ?_⟩
+  subst h
+  unfold wBuffer wU32 at ha hbb
+  split at ha
+  · split at hbb
+    · simp only [bind, Except.bind, pure, Except.pure, Except.ok.injEq] at ha hbb
+      rw [← ha, ← hbb]
+    · cases hbb
+  · cases ha
+
+/-- size guards: a session key of the wrong size is refused on encryption -/
+theorem client_size_guard (c : Cfg) (key : Bytes) (t : ClientTicket) (h : c.keySize ≠ t.sessionKey.length) :
+    ClientTicket.encrypt c key t = .error .value := by
+  simp [ClientTicket.encrypt, clientPlain, h, bind, Except.bind, throw, throwThe, MonadExceptOf.throw]
+
+theorem decrypted_sessionKey_size (c : Cfg) (key data : Bytes) (t : ClientTicket)
+    (h : ClientTicket.decrypt c key data = .ok t) : t.sessionKey.length = c.keySize := by
+  unfold ClientTicket.decrypt at h
+  obtain ⟨d, _, h⟩ := bind_ok h
+  obtain ⟨⟨sk, r⟩, hsk, h⟩ := bind_ok h
+  obtain ⟨⟨target, r2⟩, _, h⟩ := bind_ok h
+  obtain ⟨⟨internal, r3⟩, _, h⟩ := bind_ok h
+  simp only [pure, Except.pure, Except.ok.injEq] at h
+  subst h
+  unfold rd at hsk
+  split at hsk
+  · simp only [Except.ok.injEq, Prod.mk.injEq] at hsk
+    rw [← hsk.1]; simp; omega
+  · cases hsk
+
 end Nx.Nex.Kerberos
